@@ -55,9 +55,13 @@ func zzC07Exact() {
 		id, aerr := h.Add(names[i], []float32{float32(i)})
 		rt.Assert(aerr == nil && id == uint32(i), "Add assigns consecutive internal ids")
 		live[i] = true
-		if i < n && rt.IntRange("deleteAfterAdd", 0, rt.Param("DELETES", 1)) == 1 {
-			h.Delete(names[i])
-			live[i] = false
+		// between two inserts any one of the live vectors may be soft-deleted (not only the newest)
+		if rt.Param("DELETES", 1) == 1 { // (also after the last insert)
+			if j := rt.IntRange("deleteWhich", 0, i); j > 0 {
+				rt.Assume(live[j])
+				h.Delete(names[j])
+				live[j] = false
+			}
 		}
 	}
 	// structural invariants
